@@ -28,13 +28,13 @@ func runReplay(rs ReplaySpec) (reproduced bool, output string, err error) {
 		return false, "", e
 	}
 	defer os.RemoveAll(tmp)
-	target := filepath.Join("/repo", rs.Pkg, "zz_verif_replay_"+filepath.Base(rs.File))
+	target := filepath.Join(repoRoot(), rs.Pkg, "zz_verif_replay_"+filepath.Base(rs.File))
 	ov := map[string]map[string]string{"Replace": {target: src}}
 	b, _ := json.Marshal(ov)
 	ovf := filepath.Join(tmp, "ov.json")
 	os.WriteFile(ovf, b, 0o644)
 	cmd := exec.Command("go", "test", "-overlay", ovf, "-vet=off", "-count=1", "-timeout", "180s", "-run", "^"+rs.Run+"$", rs.Pkg)
-	cmd.Dir = "/repo"
+	cmd.Dir = repoRoot()
 	cmd.Env = append(os.Environ(), "GOFLAGS=-mod=mod", "GOPROXY=off", "GOSUMDB=off", "GOTOOLCHAIN=local")
 	out, runErr := cmd.CombinedOutput()
 	var keep []string
